@@ -1373,13 +1373,24 @@ def c19_file(case):
                     if op["mode"] == "exists":
                         objs[2].tracts_to_csv(list(attrs), fp, "w", nice_headers=nh)
                 elif name == "csv":
-                    objs[op["d"]].tracts_to_csv(list(attrs), fp, op["mode"], nice_headers=nh)
+                    # through the PLSSDesc wrapper or directly on its TractList
+                    tgt = objs[op["d"]] if (seq + len(attrs)) % 2 else objs[op["d"]].tracts
+                    tgt.tracts_to_csv(list(attrs), fp, op["mode"], nice_headers=nh)
                 elif name == "winit":
                     tw = TractWriter(list(attrs), fp, op["mode"], nice_headers=nh, uid=(op["d"] or None),
                                      plus_cols=(list(plus_heads) if op.get("p") else None))
                 elif name == "wwrite":
                     pv = plus_vals.get(op.get("p", 0))
-                    n = tw.write(objs[op["d"]] if op["d"] else None, plus_cols=(list(pv) if pv else None))
+                    what = None
+                    if op["d"]:
+                        # the documented kinds of input: a PLSSDesc, a TractList, a list / generator of Tracts, a list
+                        # holding the PLSSDesc, a single Tract (description 2 has one tract)
+                        o_ = objs[op["d"]]
+                        forms = [o_, o_.tracts, list(o_.tracts), (t_ for t_ in o_.tracts), [o_]]
+                        if len(o_.tracts) == 1:
+                            forms.append(o_.tracts[0])
+                        what = forms[(seq + len(attrs)) % len(forms)]
+                    n = tw.write(what, plus_cols=(list(pv) if pv else None))
                     ev["ret"] = {"kind": "count", "n": n}
                 elif name == "wclose":
                     tw.close()
@@ -1424,7 +1435,10 @@ def c19_records(case):
             call = ([list(attrs[:2])] + list(attrs[2:]),)
         else:
             call = tuple(attrs)
-        if form == "to_dict":
+        if a["via"] == "tract":
+            # the single-tract forms, tract by tract
+            recs = [(t.to_dict(*call) if "dict" in form else t.to_list(*call)) for t in d.tracts]
+        elif form == "to_dict":
             recs = target.tracts_to_dict(*call)
         elif form == "to_list":
             recs = target.tracts_to_list(*call)
